@@ -11,7 +11,7 @@ META = {
     "design_ref": "7/C10",
 }
 FAMS = ["runiso"]
-INVS = ["Exclusive", "NoHeldInPool", "Isolation", "HistIsSchedule"]
+INVS = ["Exclusive", "NoHeldInPool", "Isolation", "DetachedNotPooled", "HistIsSchedule"]
 
 
 def run(ctx, only_ids=None):
@@ -20,7 +20,7 @@ def run(ctx, only_ids=None):
     states = trans = 0
     for (runs, calls) in configs:
         wd = ctx.stage(f"mc_{runs}x{calls}", FAMS)
-        rig.write_cfg(wd / "MC_RunIsolation.cfg", spec="Spec", constants={"Runs": runs, "Calls": calls, "PutBeforeCall": False}, invariants=INVS)
+        rig.write_cfg(wd / "MC_RunIsolation.cfg", spec="Spec", constants={"Runs": runs, "Calls": calls, "PutBeforeCall": False, "PutAfterGo": False}, invariants=INVS)
         r = ctx.tlc(wd, "MC_RunIsolation", workers=8, timeout=1200, must_pass=True)
         states += r.distinct
         trans += r.generated
@@ -29,10 +29,16 @@ def run(ctx, only_ids=None):
             c["id"] = c["id"] + 10000 * runs + 100000 * calls
         allcases += cs
     wd2 = ctx.stage("mc_putearly", FAMS)
-    rig.write_cfg(wd2 / "MC_RunIsolation.cfg", spec="Spec", constants={"Runs": 2, "Calls": 1, "PutBeforeCall": True}, invariants=INVS[:3])
+    rig.write_cfg(wd2 / "MC_RunIsolation.cfg", spec="Spec", constants={"Runs": 2, "Calls": 1, "PutBeforeCall": True, "PutAfterGo": False}, invariants=INVS[:3])
     r2 = ctx.tlc(wd2, "MC_RunIsolation", workers=4, timeout=600)
     if not r2.invariant_violated:
         raise Infra("RunIsolation invariants are vacuous: the put-before-call variant was accepted")
+    wd3 = ctx.stage("mc_putaftergo", FAMS)
+    rig.write_cfg(wd3 / "MC_RunIsolation.cfg", spec="Spec", constants={"Runs": 2, "Calls": 1, "PutBeforeCall": False, "PutAfterGo": True}, invariants=["DetachedNotPooled", "Isolation"])
+    r3 = ctx.tlc(wd3, "MC_RunIsolation", workers=4, timeout=600)
+    if not r3.invariant_violated:
+        raise Infra("RunIsolation: the variant returning the slice of a go call to the pool was accepted")
+    ctx.cov["nonvacuity_variant_put_after_go_rejected"] = True
     ctx.cov.update(states=states, transitions=trans, mc_properties=INVS, nonvacuity_variant_put_before_call_rejected=True,
                    bounds=str(configs))
     if ctx.quick:
@@ -115,7 +121,7 @@ def judge(ctx, step, obs):
     wd = ctx.stage(step, FAMS)
     shutil.copy(obs, wd / "obs.ndjson")
     rig.write_cfg(wd / "Trace_RunIsolation.cfg", init="TInit", next_="TNext",
-                  constants={"Runs": 0, "Calls": 0, "PutBeforeCall": False}, invariants=["Done", "TraceInv"], postcondition="Consumed")
+                  constants={"Runs": 0, "Calls": 0, "PutBeforeCall": False, "PutAfterGo": False}, invariants=["Done", "TraceInv"], postcondition="Consumed")
     r = ctx.tlc(wd, "Trace_RunIsolation", workers=1, timeout=1500)
     if not r.ok or not (wd / "bad.ndjson").exists():
         raise Infra(f"Trace_RunIsolation failed: {wd}/Trace_RunIsolation.out\n" + rig.tail(r.out, 25))
@@ -126,11 +132,11 @@ def compact(t):
     out = []
     for e in t:
         if e["ev"] == "gate":
-            out.append(f"r{e['run']}:{e['g']}" + (f"#{e['ptr']}" if e["ptr"] else ""))
+            out.append(f"r{e['run']}:{'go ' if e.get('go') else ''}{e['g']}" + (f"#{e['ptr']}" if e["ptr"] else ""))
         elif e["ev"] == "reset":
             out.append(f"[{e['kind']} {e.get('form')} runs={e['runs']} calls={e['calls']}]")
         elif e["ev"] == "host":
-            out.append(f"r{e['run']}:host(saw r{e['seen']})")
+            out.append(f"r{e['run']}:{'async-' if e.get('async') else ''}host(saw r{e['seen']})")
         elif e["ev"] == "result":
             out.append(f"r{e['run']}:{'same' if e['same'] else 'DIFF out=' + repr(e.get('out'))[:80] + ' ref=' + repr(e.get('ref'))[:80]}:{e['outcome']}")
         else:
